@@ -20,6 +20,11 @@ RulesOut(h, n) == h.at = 0 /\ (h.lo > n \/ (h.hi >= 0 /\ h.hi < n))
 Ruled == \E i \in DOMAIN op.hints : RulesOut(op.hints[i], op.n)
 Exact == Len(op.got) = op.n /\ op.sawNone
 
+\* every pulled item has been dropped exactly once (vacuous for element types without destructor)
+AllGotDropped == ~Tracked \/ op.gdropped = SeqRange(op.got)
+LifeAfterFailure == IF Tracked THEN life
+                    ELSE [e \in DOMAIN life |-> IF e \in SeqRange(op.got) THEN "dropped" ELSE life[e]]
+
 Hint(r) ==
     /\ ~Idle /\ IsCollectOp(op.name) /\ op.phase = "idle"
     /\ op' = [op EXCEPT !.hints = Append(@, [lo |-> r.lo, hi |-> r.hi, at |-> op.polls])]
@@ -66,29 +71,31 @@ RetCollect(r) ==
     /\ IF r.err
        THEN /\ ~PanickingForm
             /\ r.outs = <<>>
-            /\ op.gdropped = SeqRange(op.got)            \* every pulled item dropped exactly once
+            /\ AllGotDropped                             \* every pulled item dropped exactly once
             /\ ~(Exact /\ ~Ruled /\ op.truthful)           \* a truthful exact source must succeed
+            /\ life' = LifeAfterFailure
             /\ UNCHANGED pool
        ELSE /\ Exact                                     \* Ok only for exactly N items, then None
             /\ op.gdropped = {}
             /\ OutsMatch(r.outs, <<MkVal(op.okind, op.got, 0)>>)
             /\ AllLive(op.got)
             /\ pool' = PoolWith(pool, r.outs)
+            /\ UNCHANGED life
     /\ op' = NoOp
-    /\ UNCHANGED <<life, loose, owed, heap, cfg>>
+    /\ UNCHANGED <<loose, owed, heap, cfg>>
 
 \* from_iter / collect panic with the documented message instead of Err;
 \* any form unwinds if the source itself panicked
 UnwoundCollect(u) ==
     /\ ~Idle /\ IsCollectOp(op.name)
     /\ \/ /\ op.phase = "unwinding"                       \* the source (or a destructor) panicked
-          /\ (Strict => op.gdropped = SeqRange(op.got))
+          /\ (Strict => AllGotDropped)
        \/ /\ op.phase = "idle" /\ PanickingForm           \* the length-error panic
           /\ u.msg = ExpectedMsg
-          /\ op.gdropped = SeqRange(op.got)
+          /\ AllGotDropped
           /\ ~(Exact /\ ~Ruled /\ op.truthful)
     /\ life' = [e \in DOMAIN life |->
-                  IF e \in SeqRange(op.got) \ op.gdropped THEN "abandoned" ELSE life[e]]
+                  IF e \in SeqRange(op.got) \ op.gdropped THEN (IF Tracked THEN "abandoned" ELSE "dropped") ELSE life[e]]
     /\ op' = NoOp
     /\ UNCHANGED <<pool, loose, owed, heap, cfg>>
 =============================================================================
